@@ -28,7 +28,12 @@ tree) and on real materialised directories for a sample; code-only: keys distinc
 nodes() order, every existing path a key, values equal get(), unchanged tail sorted.
 prev_type/curr_type: compared with the model and, code-only, with the kinds of the old/new entry.
 
-Theorems also include C18_annotate_covers, C18_annotate_order, C18_node_types.
+Theorems also include C18_annotate_covers, C18_annotate_order, C18_node_types, and the
+composition with C19, C18_C19_change_detected / C18_C19_changed_paths (coq/Util/PackerDetect.v):
+tied at code level by ``detect_case`` -- two materialised directories, real ``dir_hashsums`` on
+both, the old table through JSON (as stored in the container), real ``DirDiff.compare``; is_empty
+and the reported paths against an independent os-level walk (bytes, resolved link targets,
+directory entries).  Oracle class ``packer-detect``.
 Theorems (coq/Properties/C18.v, all closed under the global context): C18_compare_none_iff,
 C18_reported_iff (sound + complete listing, status/prev/curr, no duplicates), C18_order_safe
 (parent listed; removed before / added after it, as list positions), C18_get_agrees,
@@ -556,6 +561,93 @@ def w_fs(case):
         return [f"raised {type(e).__name__}: {e}"[:200]]
 
 
+
+# ---- packer change detection: real dir_hashsums x2 -> real DirDiff.compare, against an independent walk
+
+def _disk_entry(base: str, p: str):
+    """Content of the entry p below base, by an independent walk (os.* only): files by bytes,
+    links by the resolved target relative to the directory, directories by their entries."""
+    if os.path.islink(p):
+        tgt = os.path.realpath(os.path.join(os.path.dirname(p), os.readlink(p)))
+        return ("s", os.path.relpath(tgt, os.path.realpath(base)))
+    if os.path.isdir(p):
+        return ("d", tuple(sorted((k, _disk_entry(base, os.path.join(p, k))) for k in os.listdir(p))))
+    with open(p, "rb") as fh:
+        return ("f", fh.read())
+
+
+def _entry_at(e, parts):
+    for seg in parts:
+        if e is None or e[0] != "d":
+            return None
+        e = dict(e[1]).get(seg)
+    return e
+
+
+def _entry_paths(e, pre=()):
+    out = [pre]
+    if e is not None and e[0] == "d":
+        for k, c in e[1]:
+            out += _entry_paths(c, pre + (k,))
+    return out
+
+
+def _deloop(t: Tree) -> Tree:
+    """A link named like the first segment of its own text loops on itself (dir_hashsums then
+    raises, which is C19's subject): give such links a dangling text instead."""
+    if not isinstance(t, dict):
+        return t
+    out = {}
+    for k, v in t.items():
+        if isinstance(v, str) and v.startswith("symlink:") and v[len("symlink:"):].split("/")[0] == k:
+            v = "symlink:zz/" + v[len("symlink:"):]
+        out[k] = _deloop(v)
+    return out
+
+
+def detect_case(case) -> List[str]:
+    """What PGPacker.update does to decide what changed: dir_hashsums(srcdir) now, compared by
+    DirDiff.compare with the table stored at pack time (which went through JSON in the container).
+    C18_C19_change_detected / C18_C19_changed_paths: empty diff iff equal content; reported
+    paths = paths whose entries differ."""
+    from pathlib import Path
+    from metador_core.util.diff import DirDiff
+    from metador_core.util.hashsums import dir_hashsums
+    prev, curr = _deloop(case[0]), _deloop(case[1])
+    with vlib.workdir("c18") as wd:
+        A, B = os.path.join(str(wd), "old"), os.path.join(str(wd), "new")
+        _materialise(A, prev)
+        _materialise(B, curr)
+        try:
+            ha, hb = dir_hashsums(Path(A)), dir_hashsums(Path(B))
+        except (RuntimeError, ValueError, OSError) as e:   # link loops etc.: C19's business
+            return [f"SKIP dir_hashsums raised {type(e).__name__}"]
+        stored = json.loads(json.dumps(ha))
+        dd = DirDiff.compare(stored, hb)
+        reported = set() if dd.is_empty else {tuple(n.path.parts) for n in dd._diff_root.nodes()}
+        ea, eb = _disk_entry(A, A), _disk_entry(B, B)
+    problems: List[str] = []
+    if bool(dd.is_empty) != (ea == eb):
+        problems.append(f"packer-detect: diff of the two hashsum tables is "
+                        f"{'empty' if dd.is_empty else 'not empty'} but the directories are "
+                        f"{'equal' if ea == eb else 'different'}")
+    differing = {p for p in set(_entry_paths(ea)) | set(_entry_paths(eb))
+                 if _entry_at(ea, p) != _entry_at(eb, p)}
+    if reported != differing:
+        odd = sorted(reported ^ differing)[:3]
+        problems.append("packer-detect: reported paths are not the paths whose content differs: "
+                        + ", ".join("/".join(p) or "." for p in odd))
+    return problems
+
+
+def w_detect(case):
+    try:
+        with vlib.time_limit(60):
+            return detect_case(case)
+    except Exception as e:  # noqa: BLE001
+        return [f"packer-detect: raised {type(e).__name__}: {e}"[:200]]
+
+
 # ---------------------------------------------------------------------------- shrinking
 
 def _fails(prev, curr) -> bool:
@@ -733,6 +825,26 @@ def run(ctx: vlib.Ctx):
                     {"kind": "fs", "prev": sa, "curr": sb, "problems": problems[:5]},
                     sig_obj={"kind": "fs", "law": key, "prev": canon(sa), "curr": canon(sb)})
 
+    # ---- packer change detection (C18 + C19 composed, code level)
+    det_pairs = fs_pairs[:ctx.budget(400, 3000)]
+    dres = vlib.pmap(w_detect, det_pairs, chunksize=16)
+    det_skipped = 0
+    for (a, b), problems in zip(det_pairs, dres):
+        if any(p.startswith("SKIP ") for p in problems):
+            det_skipped += 1
+            continue
+        if problems and "packer-detect" not in reported:
+            reported.add("packer-detect")
+
+            def dfails(x, y):
+                return any(p.startswith("packer-detect") for p in w_detect((x, y)))
+            sa, sb = shrink_pair(a, b, fails=dfails, budget=120)
+            ctx.violation(
+                f"packer change detection (dir_hashsums + DirDiff.compare): {problems[0]}",
+                {"kind": "detect", "prev": sa, "curr": sb, "problems": problems[:5]},
+                sig_obj={"kind": "detect", "law": "packer-detect", "prev": canon(sa), "curr": canon(sb)})
+    cov["packer_detect"] = {"cases": len(det_pairs), "skipped_dir_hashsums_raised": det_skipped}
+
     for nt in sorted(doc_notes):
         ctx.notes.append(nt[5:] + " -- docstring promise outside the property, not counted as a violation")
 
@@ -742,7 +854,7 @@ def run(ctx: vlib.Ctx):
                              max_cases=ctx.budget(40, 120))
 
     # ---- summary
-    cov["evaluations"] = len(cases) + len(fs_pairs)
+    cov["evaluations"] = len(cases) + len(fs_pairs) + len(det_pairs)
     cov["distinct_nontrivial"] = len(nontrivial)
     cov["rule"] = ("a case is an ordered pair (prev, curr) of hashsum trees; distinct = distinct canonical pair, "
                    "non-trivial = prev != curr; exhaustive part: all ordered pairs of root directories with <= 4 nodes "
@@ -786,7 +898,7 @@ def run(ctx: vlib.Ctx):
 
 def _law_class(problem: str) -> str:
     """Coarse class of an oracle message, so that one violation is reported per law."""
-    for key in ("is_empty", "listed twice", "unchanged path", "is not listed", "prev_type", "status", "prev/curr",
+    for key in ("packer-detect", "is_empty", "listed twice", "unchanged path", "is not listed", "prev_type", "status", "prev/curr",
                 "parent of listed", "listed after its parent", "listed before its parent", "refused",
                 "does not produce", "get(", "bucket key", "annotate", "os-level", "raised"):
         if key in problem:
@@ -801,6 +913,10 @@ def replay(rep) -> int:
     if kind == "pair":
         a, b = rep["prev"], rep["curr"]
         st, obs, problems = _guard_case((a, b, queries_for(a, b)))
+        print("\n".join(problems) if problems else "no longer failing")
+        return 1 if problems else 0
+    if kind == "detect":
+        problems = [p for p in w_detect((rep["prev"], rep["curr"])) if p.startswith("packer-detect")]
         print("\n".join(problems) if problems else "no longer failing")
         return 1 if problems else 0
     if kind == "fs":
